@@ -117,6 +117,91 @@ class TracingBackend(object):
         set_state(cur)
 
 
+def protocol_cases(rnd, n):
+    """tiny concrete instances of the tracing protocol run through TracingBackend over a dict store: bodies are lists of
+    assignments t := x + y + k over the pool a b c d i; every while body first increments its test variable"""
+    pool = ['a', 'b', 'c', 'd', 'i']
+    be = TracingBackend(None)
+    cases = []
+
+    def asgs(m):
+        return [(rnd.choice(pool[:4]), rnd.choice(pool), rnd.choice(pool), rnd.randint(0, 3)) for _ in range(rnd.randint(0, m))]
+
+    def closure(store, body, pre=None):
+        def run(*it):
+            if pre is not None:
+                store[pre] = it[0]
+            for t, x, y, k in body:
+                store[t] = store[x] + store[y] + k
+        return run
+    for j in range(n):
+        kind = ('if', 'while', 'for')[j % 3]
+        vars_ = rnd.sample(pool[:4], rnd.randint(0, 4)) + (['i'] if kind == 'for' and rnd.random() < 0.5 else [])
+        init = [rnd.randint(0, 4) for _ in pool]
+        store = dict(zip(pool, init))
+
+        def get_state():
+            return tuple(store[v] for v in vars_)
+
+        def set_state(vals):
+            for v, x in zip(vars_, vals):
+                store[v] = x
+        if kind == 'if':
+            b, o = asgs(3), asgs(3)
+            nouts = rnd.randint(0, len(vars_))
+            c = rnd.random() < 0.5
+            be.if_stmt(c, closure(store, b), closure(store, o), get_state, set_state, tuple(vars_), nouts)
+            cases.append('PIf %s %d %s %s %s %s %s' % (coq_strs(vars_), nouts, 'true' if c else 'false', coq_asgs(b), coq_asgs(o),
+                                                    coq_nats(init), coq_nats([store[v] for v in pool])))
+        elif kind == 'while':
+            tv = rnd.choice(pool[:4])
+            k = rnd.randint(0, 6)
+            b = [(tv, tv, tv, 1)] + [a for a in asgs(3) if a[0] != tv]       # tv := 2*tv + 1 and nothing else writes it: the loop ends
+            be.while_stmt(lambda: store[tv] < k, closure(store, b), get_state, set_state, tuple(vars_), {})
+            cases.append('PWhile %s %s %d %s %s %s' % (coq_strs(vars_), vlib.coq_str(tv), k, coq_asgs(b), coq_nats(init),
+                                                      coq_nats([store[v] for v in pool])))
+        else:
+            items = [rnd.randint(0, 5) for _ in range(rnd.randint(0, 4))]
+            b = asgs(3)
+            if rnd.random() < 0.5:
+                tv, k = rnd.choice(pool[:4]), rnd.randint(0, 12)
+                extra, ct = (lambda: store[tv] < k), '(Some (%s, %d))' % (vlib.coq_str(tv), k)
+            else:
+                extra, ct = None, 'None'
+            be.for_stmt(items, extra, closure(store, b, 'i'), get_state, set_state, tuple(vars_), {})
+            cases.append('PFor %s %s %s %s %s %s' % (coq_strs(vars_), coq_nats(items), ct, coq_asgs(b), coq_nats(init),
+                                                    coq_nats([store[v] for v in pool])))
+    return cases
+
+
+def coq_nats(xs):
+    return '[' + '; '.join(str(x) for x in xs) + ']'
+
+
+def coq_asgs(b):
+    return '[' + '; '.join('(%s, %s, %s, %d)' % (vlib.coq_str(t), vlib.coq_str(x), vlib.coq_str(y), k) for t, x, y, k in b) + ']'
+
+
+def protocol_tie(run, rnd, n):
+    """the Coq model of the tracing protocol (Ctrl/Tracing.v: if_fun, while_harness, for_harness) against TracingBackend"""
+    cases = protocol_cases(rnd, n)
+    body = ['From Coq Require Import List String Bool Arith.', 'Import ListNotations.',
+            'Require Import MV.Ctrl.BlockSyntax MV.Generated.C02_gen MV.Ctrl.BlockVars MV.Ctrl.Tracing MV.Ctrl.TracingCheck.',
+            'Local Open Scope string_scope.',
+            'Definition cases : list pcase := [', ';\n'.join('(%s)' % c for c in cases), '].',
+            'Fixpoint bad (i : nat) (l : list pcase) : list nat := match l with [] => [] | c :: r => if ok c then bad (S i) r else i :: bad (S i) r end.',
+            'Eval vm_compute in bad 0 cases.']
+    rc, out = vlib.coq_eval('C02', 'protocol', '\n'.join(body), timeout=600)
+    bad = vlib.parse_coq_list_of_nat(out) if rc == 0 else None
+    run.extra['tracing_protocol_cases'] = len(cases)
+    run.count(len(cases))
+    if bad is None:
+        return 'evaluation of the tracing-protocol model failed: ' + out[-400:]
+    if bad:
+        return 'the Coq tracing-protocol model and TracingBackend disagree on case %s' % cases[bad[0]]
+    return None
+
+
 def make_transpiler():
     from malt.impl import api
     import importlib.util
@@ -400,6 +485,10 @@ def check(run):
         elif bad:
             corr_bad = 'model and _get_block_vars disagree, e.g. on %r' % (cases[bad[0]][1:],)
         run.extra['blockvars_cases'] = len(cases)
+    # (a') the protocol model of the semantic theorem against the backend the oracle injects
+    if tie_ok and not corr_bad:
+        vlib.coq_make(['Ctrl/TracingCheck.vo'])
+        corr_bad = protocol_tie(run, rnd, 300 if quick else 3000)
     # (b) tracing backend oracle
     from malt.impl import api
     failures = []
